@@ -510,9 +510,23 @@ func (x *Exec) callDynamic(st *State, call *ast.CallExpr) []*Term {
 	if x.spec > 0 {
 		x.unsupported(call, "call through function value in specification")
 	}
+	if x.top.Flag("dyncalls-pure") {
+		// assumed (listed in the evidence): the function values this unit calls have no side effects
+		msg := fmt.Sprintf("%s assumes the function values it calls have no side effects", x.top.Name())
+		seen := false
+		for _, a := range x.assumed {
+			if a == msg {
+				seen = true
+			}
+		}
+		if !seen {
+			x.assumed = append(x.assumed, msg)
+		}
+		return x.unknownResults(st, sig, "dyn")
+	}
 	x.abstracted("call through function value (all heaps forgotten)")
 	x.callFrameCheck(st, &Effects{Top: true}, call)
-	x.havocAllHeaps(st)
+	x.havocAllHeapsDyn(st)
 	return x.unknownResults(st, sig, "dyn")
 }
 
@@ -728,6 +742,23 @@ func (x *Exec) doReturn(st *State, vals []*Term, at ast.Node, implicit bool) {
 	}
 	st.defers = rest
 	for i := len(mine) - 1; i >= 0; i-- {
+		if c := mine[i].cond; c != nil {
+			// registered on some paths only: run it under its condition
+			n := len(st.pc)
+			t := st.clone()
+			t.pc = append(t.pc, c)
+			x.evalCall(t, mine[i].call)
+			e := st.clone()
+			e.pc = append(e.pc, Not(c))
+			var parts []*State
+			if !t.dead() {
+				parts = append(parts, t)
+			}
+			parts = append(parts, e)
+			m := x.merge(n, parts)
+			*st = *m
+			continue
+		}
 		x.evalCall(st, mine[i].call)
 		if st.dead() {
 			return
@@ -1001,11 +1032,34 @@ func (x *Exec) frameCheckRange(st *State, heap string, sl *Term, at ast.Node) {
 
 // evalModifies evaluates the modifies clause of fi in the current state.
 func (x *Exec) evalModifies(st *State, fi *FuncInfo) ([]modLoc, []modElems) {
+	return x.evalLocs(st, fi.Modifies, false)
+}
+
+// havocAllHeapsDyn: a call through a function value forgets every heap,
+// except the places the unit's contract assumes such calls leave unchanged.
+func (x *Exec) havocAllHeapsDyn(st *State) {
+	type saved struct {
+		l modLoc
+		v *Term
+	}
+	var keep []saved
+	for _, l := range x.dynLocs {
+		if l.ref != nil && l.elem != "" {
+			keep = append(keep, saved{l, x.hread(st, l.heap, l.elem, l.ref)})
+		}
+	}
+	x.havocAllHeaps(st)
+	for _, k := range keep {
+		st.assume(Eq(x.hread(st, k.l.heap, k.l.elem, k.l.ref), k.v))
+	}
+}
+
+func (x *Exec) evalLocs(st *State, exprs []ast.Expr, lenient bool) ([]modLoc, []modElems) {
 	var locs []modLoc
 	var elems []modElems
 	x.spec++
 	defer func() { x.spec-- }()
-	for _, m := range fi.Modifies {
+	for _, m := range exprs {
 		m = ast.Unparen(m)
 		if call, ok := m.(*ast.CallExpr); ok && markerName(call) == "__heapof" {
 			// whole heaps of a type
@@ -1030,21 +1084,24 @@ func (x *Exec) evalModifies(st *State, fi *FuncInfo) ([]modLoc, []modElems) {
 		case plCell:
 			if stt, isStruct := pl.typ.Underlying().(*types.Struct); isStruct {
 				if len(pl.path) > 0 {
-					locs = append(locs, modLoc{fieldHeap(pl.typ, stt.Field(pl.path[0]).Name()), pl.ref})
+					locs = append(locs, modLoc{fieldHeap(pl.typ, stt.Field(pl.path[0]).Name()), pl.ref, x.p.Reg.sortOf(stt.Field(pl.path[0]).Type())})
 				} else {
 					for _, h := range heapsOfType(pl.typ) {
-						locs = append(locs, modLoc{h, pl.ref})
+						locs = append(locs, modLoc{heap: h, ref: pl.ref})
 					}
 				}
 			} else {
-				locs = append(locs, modLoc{heapOfType(pl.typ), pl.ref})
+				locs = append(locs, modLoc{heapOfType(pl.typ), pl.ref, x.p.Reg.sortOf(pl.typ)})
 			}
 		case plGlobal:
-			locs = append(locs, modLoc{pl.gheap, IntLit(0)})
+			locs = append(locs, modLoc{heap: pl.gheap, ref: IntLit(0)})
 		case plMap:
 			dn, vn, _, _ := x.mapHeaps(pl.mapT)
-			locs = append(locs, modLoc{dn, pl.mref}, modLoc{vn, pl.mref})
+			locs = append(locs, modLoc{heap: dn, ref: pl.mref}, modLoc{heap: vn, ref: pl.mref})
 		default:
+			if lenient {
+				continue // e.g. a field of a value receiver: a local copy, untouched by any call
+			}
 			x.unsupported(m, "modifies entry is not a heap location")
 		}
 	}
